@@ -137,6 +137,7 @@ def check(R, tier):
     U.from_signed(R, I, tier)
     U.signed_role_new(R, I, tier)
     U.update_delegated(R, I, tier)
+    U.target_path(R, I, tier)
     native(R, tier)
 
 def native(R, tier):
